@@ -320,26 +320,43 @@ def gen_stream_sched_cases(ctx, n):
         for d in range(ndr):
             s = rng.randrange(nsubs)
             progs.append([[7, s] for _ in range(rng.randint(1, 3))])
-        cs.append({"name": "gen", "nsubs": nsubs, "ntopics": nt, "init": init, "progs": progs, "sched": [],
+        post = []
+        for t in range(nt):
+            post += [[3, t, 9001 + t], [9, t]]
+        cs.append({"name": "gen", "nsubs": nsubs, "ntopics": nt, "init": init, "progs": progs, "post": post, "sched": [],
                    "sticky": rng.choice([0, 40, 70, 90, 96])})
     return cs
 
 
 def corpus_stream_sched_cases():
     cs = []
+    # hand-over: the only subscriber of a topic unsubscribes while a newcomer subscribes; an event published
+    # after both calls returned must reach the newcomer (and only it); the topic has exactly one subscriber
+    for k, sticky in enumerate([0, 30, 50, 50, 70, 70, 85, 85, 95, 95]):
+        cs.append({"name": "T3-hand-over-%d" % k, "nsubs": 2, "ntopics": 1, "init": [[1, 0, 0]],
+                   "progs": [[[2, 0, 0]], [[1, 1, 0]]] if k % 2 == 0 else [[[1, 1, 0]], [[2, 0, 0]]],
+                   "post": [[3, 0, 9001], [9, 0]], "sched": [], "sticky": sticky})
+    # the same with a publisher running and the leaver coming back
+    for k, sticky in enumerate([40, 80]):
+        cs.append({"name": "T4-hand-over-and-back-%d" % k, "nsubs": 2, "ntopics": 1, "init": [[1, 0, 0]],
+                   "progs": [[[2, 0, 0], [1, 0, 0]], [[1, 1, 0], [2, 1, 0], [1, 1, 0]], [[3, 0, 1001]]],
+                   "post": [[3, 0, 9001], [9, 0]], "sched": [], "sticky": sticky})
     # two drainers race on one subscriber while a publisher sits between link and counter update
     cs.append({"name": "T1-two-drainers-negative-length", "nsubs": 1, "ntopics": 1, "init": [[1, 0, 0]],
                "progs": [[[3, 0, 1001], [3, 0, 1002]], [[7, 0]], [[7, 0]], [[7, 0]]],
-               "sched": [], "sticky": 90})
+               "post": [], "sched": [], "sticky": 90})
     # unsubscribe completes while a publisher holds a snapshot: allowed to deliver; a later publish is not
     cs.append({"name": "T2-unsubscribe-vs-snapshot", "nsubs": 2, "ntopics": 1, "init": [[1, 0, 0], [1, 1, 0]],
-               "progs": [[[3, 0, 1001], [3, 0, 1002]], [[2, 0, 0]], [[3, 0, 2001]]], "sched": [], "sticky": 60})
+               "progs": [[[3, 0, 1001], [3, 0, 1002]], [[2, 0, 0]], [[3, 0, 2001]]], "post": [[3, 0, 9001], [9, 0]], "sched": [], "sticky": 60})
     return cs
 
 
 def stream_sched_oracle(case, out):
     bad = []
     if out.get("aborted"):
+        if "yield point" in out["aborted"]:
+            # a thread blocked on a lock held by a parked thread (the scheduler cannot run nested stream locks)
+            return [("blocked", "run abandoned: %s" % out["aborted"])], False
         return [("abort", "run aborted: %s" % out["aborted"])], False
     ops = out["ops"]
     nsubs = case["nsubs"]
@@ -437,6 +454,32 @@ def stream_sched_oracle(case, out):
                 bad.append(("lost", "event %d published on topic %d while subscriber %d was subscribed and active was never delivered to it" % (e, t, s)))
             if (not member or not active) and key in seen:
                 bad.append(("stray", "event %d on topic %d was delivered to subscriber %d although it was %s before the publish began" % (e, t, s, "not subscribed" if not member else "shut down")))
+    # SubscribersCount asked after everything had returned
+    for o in ops:
+        if o["op"][0] != 9 or o["thread"] != -1 or not o.get("result"):
+            continue
+        t = o["op"][1]
+        expect, known = 0, True
+        for s in range(nsubs):
+            ms = sorted(mops[s], key=lambda m: m["start"])
+            if not all(ms[i]["end"] < ms[i + 1]["start"] for i in range(len(ms) - 1)):
+                known = False
+                break
+            member = [1, s, t] in case["init"]
+            active = True
+            for m in ms:
+                k = m["op"][0]
+                if k == 1 and m["op"][2] == t and active:
+                    member = True
+                elif k == 2 and m["op"][2] == t:
+                    member = False
+                elif k in (5, 8):
+                    member, active = False, False
+                elif k == 6:
+                    active = False
+            expect += 1 if member else 0
+        if known and o["result"][0][0] != expect:
+            bad.append(("count", "SubscribersCount(topic %d) = %d after all Subscribe/Unsubscribe calls had returned; %d subscribers are subscribed" % (t, o["result"][0][0], expect)))
     return bad, overlap_iter
 
 
